@@ -38,7 +38,7 @@ def install_stubs(P, g, solver=None):
             return env.clock
 
     def spsolve(A, rhs):
-        A = numpy.array(A, dtype=object)
+        A = numpy.array(dense(A), dtype=object)
         rhs = numpy.array(rhs, dtype=object)
         _shadow_solution(P, A, rhs, "dx%d" % len(env.solves))
         if solver is not None:
@@ -82,7 +82,7 @@ def dense(M):
     return numpy.array(M)
 
 
-def make_free_edge_class(g):
+def make_free_edge_class(g, epoch_chi2=False):
     class FreeEdge(g.BaseEdge):
         """harness edge: error and Jacobians are free symbols (their correctness is C01/C02)"""
 
@@ -100,14 +100,42 @@ def make_free_edge_class(g):
         def is_valid(self):
             return self._is_valid()
 
-    return FreeEdge
+    if not epoch_chi2:
+        return FreeEdge
+
+    class EpochFreeEdge(FreeEdge):
+        """additionally: chi^2 is a free non-negative value per graph state (state = identity of the pose objects), so
+        that the optimizer's control flow is explored for all chi^2 sequences"""
+
+        P = None
+        tag = ""
+
+        def _state(self):
+            objs = tuple(id(v.pose) for v in self.vertices)
+            if objs != getattr(self, "_seen", None):
+                self._seen = objs
+                self._hold = [v.pose for v in self.vertices]
+                self.epoch = getattr(self, "epoch", -1) + 1
+            return self.epoch
+
+        def calc_chi2(self):
+            ep = self._state()
+            chi = self.__dict__.setdefault("chi", {})
+            if ep not in chi:
+                chi[ep] = self.P.real("%schi%d_%d" % (self.tag, self.k, ep), lo=0.0)
+            return chi[ep]
+
+    return EpochFreeEdge
 
 
-def structure_graph(P, g, kinds, edges, fixed, symbolic_ids=True, m=None, prefix=""):
+def structure_graph(P, g, kinds, edges, fixed, symbolic_ids=True, m=None, prefix="", epoch_chi2=False):
     """kinds: pose type per vertex (list order); edges: list of tuples of vertex indices; fixed: set of vertex indices.
     returns (graph, vertices, edge objects, ids)"""
     np = P.np
-    FreeEdge = make_free_edge_class(g)
+    FreeEdge = make_free_edge_class(g, epoch_chi2)
+    if epoch_chi2:
+        FreeEdge.P = P
+        FreeEdge.tag = prefix
     nv = len(kinds)
     if symbolic_ids:
         ids = [P.int("%sid%d" % (prefix, i)) for i in range(nv)]
@@ -128,6 +156,7 @@ def structure_graph(P, g, kinds, edges, fixed, symbolic_ids=True, m=None, prefix
         else:
             vids = [ids[vi] for vi in tup]
         eobjs.append(FreeEdge(vids, om, err, jacs))
+        eobjs[-1].k = k
     graph = g.Graph(eobjs, verts)
     return graph, verts, eobjs, ids
 
@@ -167,3 +196,30 @@ def reference_system(P, kinds, edges, eobjs, fixed):
         for i in range(lo, hi):
             H[i, i] = 1.0
     return b, H, offs, dims
+
+
+def contract_solver(P):
+    """spsolve contract: a structurally singular matrix (an all-zero row) yields an unconstrained vector (models the
+    NaN/garbage SuperLU returns); otherwise the result satisfies A dx = rhs."""
+    from symrun.scalars import CTX, Sym
+
+    def solver(A, rhs, k):
+        n = len(rhs)
+        dx = P.vector("dx%d" % k, n)
+
+        def is_zero(x):
+            x = Sym.lift(x)
+            return x.is_const() and x.v == 0
+
+        singular = any(all(is_zero(A[i][j]) for j in range(n)) for i in range(n))
+        if not singular:
+            for i in range(n):
+                acc = 0.0
+                for j in range(n):
+                    if not is_zero(A[i][j]):
+                        acc = acc + A[i][j] * dx[j]
+                acc = Sym.lift(acc)
+                CTX.cons.append(acc.z() == Sym.lift(rhs[i]).z())
+        return dx
+
+    return solver
